@@ -151,6 +151,11 @@ func createKeyStore(blocks []*pem.Block, password string) (keyStore, error) {
 		}
 	}
 
+	if len(entries) == 0 {
+		return nil, errorchain.NewWithMessage(heimdall.ErrConfiguration,
+			"no private key found in the pem file")
+	}
+
 	return verifyAndBuildKeyStore(entries, certs)
 }
 
